@@ -30,7 +30,7 @@ COMPONENTS = {
              'run family: the algorithms; store variant: SqliteDataStore + ProblemViewDataStore'],
     'stub': ['user objective with failure plan', 'PRNG seam', 'joblib', 'time.time', 'uuid1'],
 }
-PROBES_EXPECTED = ['run_family', 'direct_family', 'view_readback', 'maximised_goal_optimum', 'duplicate_values', 'unsorted_tags',
+PROBES_EXPECTED = ['reopened_session_readback', 'run_family', 'direct_family', 'view_readback', 'maximised_goal_optimum', 'duplicate_values', 'unsorted_tags',
                    'rerolled_designs', 'gd_checked', 'eps_checked', 'queried_again_after_more_recordings', 'changed_without_count_change',
                    'eps_integer_reference']
 
@@ -224,8 +224,14 @@ def _run(D):
         if any(c.attempt > 0 for c in w.calls):
             ctx.probe('rerolled_designs')
         if use_store:
-            ctx.probe('view_readback')
-            v = W.open_view(path)
+            if D.dec('cfg', 'readback', 3) == 1:
+                # a later session continues on the file (mode "write" loads the recorded individuals into a new Problem)
+                ctx.probe('reopened_session_readback')
+                W.reopen_session(w, path)
+                v = w.problem
+            else:
+                ctx.probe('view_readback')
+                v = W.open_view(path)
             p = v
             # the view holds one individual per id: that is the recorded history it can be asked about
             ledger = [(i, i.population_id, list(i.vector), list(i.costs)) for i in v.individuals if i.costs]
